@@ -440,6 +440,7 @@ fn local_decoders(seed: u64, rep: &mut Report, thorough: bool) {
 }
 
 pub fn run(a: &Args) -> Report {
+    real::ANSWER_AFTER_DECODE.store(true, std::sync::atomic::Ordering::Relaxed);
     let seed = a.seed;
     let sub = a.sub.clone().unwrap_or_default();
     let mut rep = Report::new();
